@@ -84,6 +84,8 @@ class C10:
                    "infeasible), which is the fault the library's retry loop targets.",
                    "extreme-draw on the sampler's internal uniform is not injected (torch.multinomial does "
                    "not expose it)."]
+    level_note = ("thin for the 'all real logits' algebra: a pure-function claim, reached only through the values "
+                  "that flow through simulated episodes and under the sampler fault")
     required_probes = ["single_feasible", "fewer_feasible_than_k", "nucleus_on_masked", "tie_at_kth",
                        "topk_active", "nucleus_active", "sampler_retried", "shift_checked", "evaluate_replay"]
     excluded = ["dpp/mdpp (stub PDN data; decoding is environment-agnostic)",
@@ -176,6 +178,7 @@ class C10:
             policy = make_scripted_policy(name, sc["mode"], sc["seed"])
             scope = f"scripted-{sc['mode']}/{name}"
         run.outcomes = []
+        run.stats[f"runs:{scope}"] += 1
         for ei, ep in enumerate(plan["episodes"]):
             _episode(run, env, cfg, rows, policy, scope, ei, ep)
 
@@ -353,6 +356,7 @@ def _episode(run, env, cfg, rows, policy, scope, ei, ep):
     if fault is not None:
         fault.candidates = mon.masked_candidates
     run.log.add("episode", ei, dt, dk, k, bool(fault))
+    run.stats[f"episodes:{dt}"] += 1
     torch.manual_seed(ep["torch_seed"])
     cap = 6 * n_act + 60
     with ProcessLogitsTap(keep=True, on_call=mon) as tap, cap_:
